@@ -25,7 +25,7 @@ for pid in ALL:
     })
 m = {
     "version": 1,
-    "setup_cmd": "cd /verif/lean && lake build UVerif uvdriver UVerifProofs",
+    "setup_cmd": "python3 /verif/gen/extract_tables.py /repo /verif/lean/UVerif/Generated && cd /verif/lean && lake build UVerif uvdriver UVerifProofs",
     "hooks": {
         "guard": "UNIVERSAL_VERIF_HOOKS",
         "enable": "harness TUs are compiled with -DUNIVERSAL_VERIF_HOOKS=1 against /repo/include (header-only library); no hook is currently needed in /repo",
